@@ -7,7 +7,7 @@
    and does not disturb a recovery) on every trace in which the application sends no ResendRequest of its own through
    SendToTarget while a TestRequest is pending, refuted without that hypothesis (Session/PendingProofs.v). *)
 From Coq Require Import ZArith List Bool.
-From QF Require Import Base.Bytes Session.Types Session.Model Session.Spec Session.LocalProofs Session.FrameProofs Session.TraceProofs Session.KeepAliveProofs Session.LogonProofs Session.ChunkProofs Session.ResendInvProofs Session.TgProofs Session.KeptProofs Session.StashTypeProofs Session.PendingProofs Session.RecoveryProofs Session.Clock Session.ClockProofs.
+From QF Require Import Base.Bytes Session.Types Session.Model Session.Spec Session.LocalProofs Session.FrameProofs Session.TraceProofs Session.KeepAliveProofs Session.LogonProofs Session.ChunkProofs Session.ResendInvProofs Session.TgProofs Session.KeptProofs Session.StashTypeProofs Session.PendingProofs Session.RecoveryProofs Session.Clock Session.ClockProofs Session.ClockArmedProofs.
 Import ListNotations.
 Open Scope Z_scope.
 
@@ -232,3 +232,18 @@ Example c20_clock_initiator_slow_logon_repaired :
   let ts := trun true 50 (tinit (ck_cfg Initiator 1)) ck_slow_logon in
   tout ts = [(0, T_LOGON); (2000, T_HEARTBEAT); (3000, T_HEARTBEAT); (4000, T_HEARTBEAT)] /\ armed ts = true.
 Proof. exact clock_initiator_slow_logon_repaired. Qed.
+
+(* TIMED, ON EVERY RUN.  With the repaired arming rules the heartbeat timer is armed in every reachable state of the timed
+   model in which the session is logged on with its outbound channel open: any configuration, any external events at any
+   times (Connect, inbound frames, application sends, Stop, a closed connection, timer expiries injected by hand included),
+   the two timers firing in between.  This is the timed form of "when nothing has been sent for the heartbeat interval a
+   Heartbeat is sent" being possible at all: a logged-on session whose heartbeat timer is not armed never sends anything
+   again of its own accord.  F18 (the expiry ignored while a TestRequest is pending) and F23 (the expiry ignored in the
+   logon state of an initiator, which the Logon answer then logs on without anything being written) were exactly
+   violations of it - `c20_clock_late_answer_before_repair_refuted` and `c20_clock_initiator_slow_logon_before_repair_refuted`
+   are the two witnesses with the rules before the repairs.  The invariant behind it (Session/ClockArmedProofs.v): whenever
+   the session is logged on, or is an initiator that has sent its Logon and waits for the answer, the deadline is set;
+   every step into such a state writes to the wire, and in a logged-on state that is not pending the expiry itself writes
+   the Heartbeat that re-arms the timer. *)
+Theorem c20_clock_armed_on_every_run : forall c fuel es, armed (trun true fuel (tinit c) es) = true.
+Proof. exact clock_armed_on_every_run. Qed.
